@@ -221,7 +221,10 @@ def work(v: Variant) -> Dict[str, Any]:
                 files["main.bitproto"] = ctext
                 if p.exc is not None:
                     if v.expect is not None:
-                        res["violations"].append(_viol(v, files, vals, f"rejected with {sym_out} ({p.exc}) although a visible earlier definition exists", po != "ok"))
+                        if po == "ok":  # the real compiler accepts this witness: the rejection is the engine's
+                            res["inconclusive"].append(f"{v.name}: rejected with {sym_out} in the symbolic run only ({p.exc}); the real compiler accepts {vals}")
+                        else:
+                            res["violations"].append(_viol(v, files, vals, f"rejected with {sym_out} ({p.exc}) although a visible earlier definition exists", True))
                     elif not isinstance(p.exc, PE):
                         res["inconclusive"].append(f"{v.name}: {sym_out} escapes (C09)")
                     continue
